@@ -47,6 +47,18 @@ func checkFullForest(in *Inst, f *model.Forest, notFound []Hash, hashEverywhere 
 	}
 	acc := in.Acc()
 	live := f.Live()
+	// a request that has to be refused comes first: whatever a refused call leaves behind shows in the
+	// checks that follow (the refusal itself is not judged here)
+	if len(notFound) > 0 && !in.ar.off {
+		func() {
+			defer func() { recover() }()
+			req := []Hash{notFound[0]}
+			if len(live) > 0 {
+				req = append([]Hash{f.Hashes[live[0]]}, req...)
+			}
+			acc.Prove(req)
+		}()
+	}
 	for _, s := range live {
 		p, ok := acc.GetLeafPosition(f.Hashes[s])
 		if !ok || p != v.SlotPos[s] {
@@ -161,6 +173,23 @@ func checkPartialForest(in *Inst, f *model.Forest, tracked []int, exactCache boo
 	vr := f.ViewR(R)
 	sort.Ints(tracked)
 	trackedSet := map[int]bool{}
+	if !in.ar.off {
+		// a request that has to be refused comes first (a remembered leaf followed by a live leaf the forest
+		// does not remember): whatever the refused call leaves behind shows in the checks that follow
+		for _, sl := range f.Live() {
+			if !inSet(tracked, sl) {
+				func() {
+					defer func() { recover() }()
+					req := []Hash{f.Hashes[sl]}
+					if len(tracked) > 0 {
+						req = append([]Hash{f.Hashes[tracked[0]]}, req...)
+					}
+					m.Prove(req)
+				}()
+				break
+			}
+		}
+	}
 	for _, s := range tracked {
 		trackedSet[s] = true
 		if f.Dead[s] {
